@@ -270,6 +270,14 @@ func (ex *Exec) modelled(st *State, ref string, fn *types.Func, recv *Val, args 
 		ex.eng.smt.syms[name].Def = term
 		ex.eng.smt.addAx(name, "(and (<= (- 1) "+name+") (<= "+name+" (str.len "+args[0].S+")))")
 		return one(ex.intVal(name, r0()))
+	case "strings.IndexRune", "strings.IndexByte":
+		if ex.bound == 0 {
+			term := "(str.indexof " + args[0].S + " (str.from_code " + args[1].S + ") 0)"
+			name := ex.eng.smt.fresh("idx", "Int")
+			ex.eng.smt.syms[name].Def = term
+			ex.eng.smt.addAx(name, "(and (<= (- 1) "+name+") (< "+name+" (str.len "+args[0].S+")) (or (< "+name+" 0) (< "+name+" (str.len "+args[0].S+"))))")
+			return one(ex.intVal(name, r0()))
+		}
 	case "strings.TrimPrefix":
 		s, p := args[0].S, args[1].S
 		return one(&Val{Sh: args[0].Sh, T: r0(), S: "(ite (str.prefixof " + p + " " + s + ") (str.substr " + s + " (str.len " + p + ") (- (str.len " + s + ") (str.len " + p + "))) " + s + ")"})
@@ -285,6 +293,12 @@ func (ex *Exec) modelled(st *State, ref string, fn *types.Func, recv *Val, args 
 		e := ex.freshVal(r0(), "err")
 		st.assume("(< 0 " + e.S + ")")
 		return one(e)
+	case "strconv.Atoi":
+		rs := ex.freshResults(fn, resT, "atoi")
+		if len(rs) == 2 {
+			ex.modelUsed[ref]++
+			return rs, true
+		}
 	case "fmt.Sprintf", "fmt.Sprint", "fmt.Sprintln", "strconv.Itoa", "strconv.FormatInt", "strconv.FormatUint", "strconv.FormatFloat", "strconv.FormatBool", "strconv.Quote":
 		return one(ex.freshVal(r0(), "fmt"))
 	case "errors.Is", "errors.As":
